@@ -196,6 +196,7 @@ func c13Profile(tier string) *eng.Profile {
 		up(core.Call{F: "RPush", B: bL, K: "k", Vs: []string{"b"}}),
 		up(core.Call{F: "SAdd", B: bS, K: "k", Vs: []string{"m"}}),
 		up(core.Call{F: "SAdd", B: bS, K: "j", Vs: []string{"n"}}),
+		up(core.Call{F: "SAdd", B: bS, K: "j", Vs: []string{"m"}}),
 		up(core.Call{F: "ZAdd", B: bZ, K: "a", X: 1, V: "va"}),
 		up(core.Call{F: "ZAdd", B: bZ, K: "b", X: 2, V: "vb"}),
 	}
@@ -207,7 +208,7 @@ func c13Profile(tier string) *eng.Profile {
 	}
 	set := []core.Call{
 		{F: "SAdd", B: bS, K: "k", Vs: []string{"p"}}, {F: "SRem", B: bS, K: "k", Vs: []string{"m"}}, {F: "SPop", B: bS, K: "k"},
-		{F: "SMoveByOneBucket", B: bS, K: "k", K2: "j", V: "m"},
+		{F: "SMoveByOneBucket", B: bS, K: "k", K2: "j", V: "m"}, {F: "SRem", B: bS, K: "j", Vs: []string{"m"}},
 		{F: "SIsMember", B: bS, K: "k", V: "p"}, {F: "SIsMember", B: bS, K: "k", V: "m"}, {F: "SMembers", B: bS, K: "k"}, {F: "SCard", B: bS, K: "k"},
 		{F: "SMembers", B: bS, K: "j"},
 	}
@@ -222,7 +223,7 @@ func c13Profile(tier string) *eng.Profile {
 		{F: "Get", B: bKV, K: "a"}, {F: "GetAll", B: bKV}, {F: "PrefixScan", B: bKV, K: "", I: 0, J: -1}, {F: "RangeScan", B: bKV, K: "", K2: "z"},
 	}
 	var dep []core.Op
-	nMut := map[string]int{"l": 7, "s": 4, "z": 5, "kv": 2}
+	nMut := map[string]int{"l": 7, "s": 5, "z": 5, "kv": 2}
 	for name, calls := range map[string][]core.Call{"l": lst, "s": set, "z": zs, "kv": kv} {
 		_ = name
 		for i := 0; i < nMut[name]; i++ {
